@@ -206,12 +206,17 @@ async fn run_async(ctx: &Ctx, c: &Case) -> Outcome {
                 tasks.push(tokio::spawn(async move {
                     let res = r.shutdown().await;
                     // same poll as the completion of shutdown(): no await in between
+                    // On a multi-thread runtime a direct close may finish between the reads below:
+                    // read the in-flight counter *before* the closed flag (a close that was in
+                    // flight when the flag read false then still counts) and again after.
+                    let inflight_before = inflight.load(SeqCst);
+                    let endpoint_closed = r.endpoint().is_closed();
                     let snap = Snapshot {
                         call,
                         handlers_done: sh.done.iter().map(|d| d.load(SeqCst)).collect(),
-                        endpoint_closed: r.endpoint().is_closed(),
+                        endpoint_closed,
                         closing_started: r.endpoint().closed().now_or_never().is_some(),
-                        direct_inflight: inflight.load(SeqCst),
+                        direct_inflight: inflight_before.max(inflight.load(SeqCst)),
                         ok: res.is_ok(),
                     };
                     snaps.lock().unwrap().push(snap);
